@@ -130,15 +130,16 @@ pub uninterp spec fn script_descr(from: Seq<Value>, to: Seq<Value>) -> JMap;
 /// order can be rebuilt (objects readable, diff succeeds) — a PANIC otherwise, modelled as a precondition
 pub uninterp spec fn array_edit_pre(data: DataStorage, t: RevisionTree, obj: JMap) -> bool;
 /// Melda::create_delta_array_descriptor (make_diff_patch against the winner's order) — ASSUMED contract:
-/// `Ok(None)` iff the edit script is empty, i.e. the submitted order equals the winner's order; otherwise `Ok(Some(d))` with
+/// (PROVED in unit chain, transported to this unit's vocabulary)
+/// `Ok(None)` iff the winner is a live (not deleted) version whose order equals the submitted order; otherwise `Ok(Some(d))` with
 /// `d` the delta descriptor of the script (a one-field object `{"Δ": [...]}`: no `_id`, no `#`, hence digestible).
 /// The function has no `Err` return path.  It reads `data`, and reads/fills the descriptor cache (through its Mutex).
 #[verifier::external_body]
 pub fn vx_create_delta_array_descriptor(data: &DataStorage, cache: &mut ArrCacheShim, obj: JMap, rt: &RevisionTree) -> (r: Result<Option<JMap>, VxError>)
     requires rt.state is Validated, rt.winner_cache is Some, array_edit_pre(*data, *rt, obj),
     ensures match r {
-        Ok(None) => submitted_order(obj) == spec_order(*data, *rt, rt.winner_cache->0),
-        Ok(Some(d)) => submitted_order(obj) != spec_order(*data, *rt, rt.winner_cache->0)
+        Ok(None) => submitted_order(obj) == spec_order(*data, *rt, rt.winner_cache->0) && (rt.winner_cache->0)@.1 != DELETED_HASH@,
+        Ok(Some(d)) => (submitted_order(obj) != spec_order(*data, *rt, rt.winner_cache->0) || (rt.winner_cache->0)@.1 == DELETED_HASH@)
             && d == script_descr(spec_order(*data, *rt, rt.winner_cache->0), submitted_order(obj)) && digestible(d),
         Err(_) => false,
     },
@@ -146,10 +147,11 @@ pub fn vx_create_delta_array_descriptor(data: &DataStorage, cache: &mut ArrCache
 
 // ---------------------------------------------------------------- spec of the property statements
 /// the content an update of `uuid` stores on top of winner `w`: the object itself, or — array descriptor — the edit script
-/// from the winner's order to the submitted order; `None` = empty edit script (submitted order == winner's order)
+/// from the winner's order to the submitted order; `None` = nothing to store: the winner is a live version with exactly the
+/// submitted order (an array that was deleted and comes back, even empty, is a new version: C16 "emptying and refilling")
 pub open spec fn edit_content(data: DataStorage, t: RevisionTree, w: Revision, uuid: Seq<char>, obj: JMap) -> Option<JMap> {
     if is_arr(uuid) {
-        if submitted_order(obj) == spec_order(data, t, w) { None }
+        if submitted_order(obj) == spec_order(data, t, w) && w@.1 != DELETED_HASH@ { None }
         else { Some(script_descr(spec_order(data, t, w), submitted_order(obj))) }
     } else { Some(obj) }
 }
@@ -432,8 +434,9 @@ pub proof fn lemma_resubmit_is_no_change(data: DataStorage, t: RevisionTree, r: 
     requires !is_arr(uuid), r@.1 == obj_digest(obj),
     ensures !must_record(data, t, r, uuid, obj),
 { }
-/// array: an edit is a change iff the submitted order differs from the winner's order — independently of any digest
+/// array: an edit is a change iff the submitted order differs from the winner's order, or the winner is a deletion (the
+/// array comes back) — independently of any digest
 pub proof fn lemma_array_edit_iff_order_differs(data: DataStorage, t: RevisionTree, w: Revision, uuid: Seq<char>, obj: JMap)
     requires is_arr(uuid),
-    ensures must_record(data, t, w, uuid, obj) <==> submitted_order(obj) != spec_order(data, t, w),
+    ensures must_record(data, t, w, uuid, obj) <==> (submitted_order(obj) != spec_order(data, t, w) || w@.1 == DELETED_HASH@),
 { }
